@@ -817,7 +817,8 @@ struct Case {
 #if HAS_HISTORY
 		if (w.ch.chance(3, 5)) replicaStart();
 #endif
-		const unsigned nOps = 1 + w.ch.draw(maxOps);
+		unsigned nOps = 1 + w.ch.draw(maxOps);
+		if (w.ch.chance(1, 25)) nOps *= 12;   // now and then a long history
 		for (unsigned i = 0; i < nOps && !w.stopCase; ++i) {
 			if (HAS_LOG && logMode == 2 && w.aux.chance(1, 6)) opAttach(a, !a.loggerAttached);
 			const OpDesc d = pickOp();
